@@ -13,6 +13,7 @@
 ##############################################################################
 """Schema loader utility."""
 
+import http.client
 import os.path
 import re
 import sys
@@ -206,6 +207,10 @@ class BaseLoader(ABC):
                 # we generally don't want to pass it along to the user.
                 self._raise_open_error(url, e.reason)  # pragma: no cover
             except OSError as e:
+                self._raise_open_error(url, str(e))
+            except (ValueError, TypeError, http.client.HTTPException) as e:
+                # what urllib and its protocol handlers make of a URL
+                # they cannot parse (bad host, control characters, ...)
                 self._raise_open_error(url, str(e))
 
             try:
